@@ -458,6 +458,13 @@ def check_roundtrip(o, case, f, clause_prefix=""):
     cmp_annot(stack, "stack")
     cmp_coord(stack.coord, coords, "stack")
     cmp_coord(g.get_coord(model=None), coords, "get_coord()")
+    # the dedicated B-factor getter reads the same columns as get_structure(extra_fields=["b_factor"])
+    bf_all = np.asarray(g.get_b_factor(model=None))
+    if o.check_eq(bf_all.shape, (depth, n), P + "b_factor_reproduced", "get_b_factor() shape"):
+        for k in range(depth):
+            o.check_array_eq(bf_all[k], np.asarray(stack.b_factor, dtype=np.float32), P + "b_factor_reproduced", f"get_b_factor() model {k + 1}")
+    mb = case.get("read_model", 0) % depth
+    o.check_array_eq(np.asarray(g.get_b_factor(model=mb - depth)), np.asarray(stack.b_factor, dtype=np.float32), P + "b_factor_reproduced", f"get_b_factor(model={mb - depth})")
     # single models, also counted from the end
     m = case.get("read_model", 0) % depth
     for model in (m + 1, m - depth):
